@@ -200,4 +200,412 @@ theorem go_deriveCore_eq_js (s : Model.SR ℝ) (o : Js.Obj ℝ)
 example : NZ (none : Option ℝ) ∧ NZ (some (297 : ℝ)) := by
   constructor <;> unfold NZ <;> simp
 
+/-! ## projString: the cases of `switch paramName` against the handlers of projString.js -/
+
+/-- what `projString` has written so far means the same on both sides: a number is set on one side iff on
+the other, to the same value; an absent string is `""` in Go; `to_meter` absent = Go's default 1 -/
+structure ParamSame (s : Model.SR ℝ) (o : Js.Obj ℝ) : Prop where
+  name : o.projName.getD "" = s.name
+  datumCode : o.datumCode.getD "" = s.datumCode
+  ellps : o.ellps.getD "" = s.ellps
+  units : o.units.getD "" = s.units
+  nadgrids : o.nadgrids.getD "" = s.nadGrids
+  axis : o.axis.getD "" = s.axis
+  rf : o.rf = s.rf
+  lat0 : o.lat0 = s.lat0
+  lat1 : o.lat1 = s.lat1
+  lat2 : o.lat2 = s.lat2
+  latts : o.lat_ts = s.latTS
+  long0 : o.long0 = s.long0
+  x0 : o.x0 = s.x0
+  y0 : o.y0 = s.y0
+  k0 : o.k0 = s.k0
+  a : o.a = s.a
+  b : o.b = s.b
+  zone : o.zone = s.zone
+  fg : o.from_greenwich = s.fromGreenwich
+  tm : o.to_meter.getD 1 = s.toMeter
+  dp : o.datum_params.getD [] = s.datumParams
+  ra : o.R_A = s.ra
+  south : o.utmSouth = s.utmSouth
+
+theorem d2r_eq : (c_deg2rad : ℝ) = Js.D2R := rfl
+
+/-- **the numeric cases of `switch paramName`** (REGENERATED table `Gen.Go.projString_num`: key ↦ Go field,
+degrees or not) **= the handlers of projString.js**: for every key of that table and every value text
+that is a number, the port's case succeeds and writes the same field with the same number (degrees
+converted with the same constant) as proj4js' handler for that key. -/
+theorem go_projString_num_eq_js (k fld : String) (deg : Bool) (hk : projString_num k = some (fld, deg))
+    (s : Model.SR ℝ) (o : Js.Obj ℝ) (h : ParamSame s o) (v : String) (x : ℝ) (hv : parseNum v = some x) :
+    ∃ s', Model.applyKV s k v = .ok s' ∧ ParamSame s' (Js.applyParam o (k, some v)) := by
+  unfold projString_num at hk
+  split at hk <;> simp only [Option.some.injEq, Prod.mk.injEq, reduceCtorEq] at hk
+  all_goals (obtain ⟨rfl, rfl⟩ := hk)
+  all_goals simp only [Model.applyKV, projString_num, Model.parseFloat, hv, Model.setNum, Js.applyParam, Js.jsNum,
+    bind, Except.bind, pure, Except.pure, Option.getD_some, if_true, if_false, Bool.false_eq_true, ite_true, ite_false, d2r_eq]
+  all_goals refine ⟨_, rfl, ?_⟩
+  all_goals (constructor <;>
+    first
+    | exact h.name
+    | exact h.datumCode
+    | exact h.ellps
+    | exact h.units
+    | exact h.nadgrids
+    | exact h.axis
+    | exact h.rf
+    | exact h.lat0
+    | exact h.lat1
+    | exact h.lat2
+    | exact h.latts
+    | exact h.long0
+    | exact h.x0
+    | exact h.y0
+    | exact h.k0
+    | exact h.a
+    | exact h.b
+    | exact h.zone
+    | exact h.fg
+    | exact h.tm
+    | exact h.dp
+    | exact h.ra
+    | exact h.south
+    | rfl)
+
+/-- **the string cases** (`self.F = paramVal`: `Gen.Go.projString_str`) = projString.js (`proj: 'projName'`,
+`datum: 'datumCode'`, `ellps`; `title` is stored under a name nothing reads) -/
+theorem go_projString_str_eq_js (k fld : String) (hk : projString_str k = some fld)
+    (s : Model.SR ℝ) (o : Js.Obj ℝ) (h : ParamSame s o) (v : String) :
+    ∃ s', Model.applyKV s k v = .ok s' ∧ ParamSame s' (Js.applyParam o (k, some v)) := by
+  unfold projString_str at hk
+  split at hk <;> simp only [Option.some.injEq, reduceCtorEq] at hk
+  all_goals subst hk
+  all_goals simp only [Model.applyKV, projString_num, projString_str, Model.setStr, Js.applyParam,
+    bind, Except.bind, pure, Except.pure, Option.getD_some]
+  all_goals refine ⟨_, rfl, ?_⟩
+  all_goals (constructor <;>
+    first
+    | exact h.name
+    | exact h.datumCode
+    | exact h.ellps
+    | exact h.units
+    | exact h.nadgrids
+    | exact h.axis
+    | exact h.rf
+    | exact h.lat0
+    | exact h.lat1
+    | exact h.lat2
+    | exact h.latts
+    | exact h.long0
+    | exact h.x0
+    | exact h.y0
+    | exact h.k0
+    | exact h.a
+    | exact h.b
+    | exact h.zone
+    | exact h.fg
+    | exact h.tm
+    | exact h.dp
+    | exact h.ra
+    | exact h.south
+    | rfl)
+
+/-- **the flag cases** (`self.F = true`: `Gen.Go.projString_flag`) = projString.js (`r_a`, `south`; `no_defs` is
+stored under a name nothing reads); the value text, if any, is ignored on both sides -/
+theorem go_projString_flag_eq_js (k fld : String) (hk : projString_flag k = some fld)
+    (s : Model.SR ℝ) (o : Js.Obj ℝ) (h : ParamSame s o) (v : String) (vo : Option String) :
+    ∃ s', Model.applyKV s k v = .ok s' ∧ ParamSame s' (Js.applyParam o (k, vo)) := by
+  unfold projString_flag at hk
+  split at hk <;> simp only [Option.some.injEq, reduceCtorEq] at hk
+  all_goals subst hk
+  all_goals simp only [Model.applyKV, projString_num, projString_str, projString_flag, Model.setFlag, Js.applyParam,
+    bind, Except.bind, pure, Except.pure]
+  all_goals refine ⟨_, rfl, ?_⟩
+  all_goals (constructor <;>
+    first
+    | exact h.name
+    | exact h.datumCode
+    | exact h.ellps
+    | exact h.units
+    | exact h.nadgrids
+    | exact h.axis
+    | exact h.rf
+    | exact h.lat0
+    | exact h.lat1
+    | exact h.lat2
+    | exact h.latts
+    | exact h.long0
+    | exact h.x0
+    | exact h.y0
+    | exact h.k0
+    | exact h.a
+    | exact h.b
+    | exact h.zone
+    | exact h.fg
+    | exact h.tm
+    | exact h.dp
+    | exact h.ra
+    | exact h.south
+    | rfl)
+
+/-- **`+units=`** (hand model of the pinned case text) = projString.js: the name is stored; a name of the units
+table sets `to_meter` to the table's number (`C09_units`: the two tables are equal) -/
+theorem go_projString_units_eq_js (s : Model.SR ℝ) (o : Js.Obj ℝ) (h : ParamSame s o) (v : String) :
+    ∃ s', Model.applyKV s "units" v = .ok s' ∧ ParamSame s' (Js.applyParam o ("units", some v)) := by
+  simp only [Model.applyKV, projString_num, projString_str, projString_flag, Model.applySpecial, Js.applyParam,
+    Option.getD_some, ← C09_units]
+  cases lookupNum Gen.goUnits v <;> refine ⟨_, rfl, ?_⟩
+  all_goals (constructor <;>
+    first
+    | exact h.name
+    | exact h.datumCode
+    | exact h.ellps
+    | exact h.units
+    | exact h.nadgrids
+    | exact h.axis
+    | exact h.rf
+    | exact h.lat0
+    | exact h.lat1
+    | exact h.lat2
+    | exact h.latts
+    | exact h.long0
+    | exact h.x0
+    | exact h.y0
+    | exact h.k0
+    | exact h.a
+    | exact h.b
+    | exact h.zone
+    | exact h.fg
+    | exact h.tm
+    | exact h.dp
+    | exact h.ra
+    | exact h.south
+    | rfl)
+
+/-- **`+nadgrids=`** = projString.js: `@null` sets the datum code `none`, anything else is stored -/
+theorem go_projString_nadgrids_eq_js (s : Model.SR ℝ) (o : Js.Obj ℝ) (h : ParamSame s o) (v : String) :
+    ∃ s', Model.applyKV s "nadgrids" v = .ok s' ∧ ParamSame s' (Js.applyParam o ("nadgrids", some v)) := by
+  simp only [Model.applyKV, projString_num, projString_str, projString_flag, Model.applySpecial, Js.applyParam,
+    Option.getD_some]
+  by_cases hv : v = "@null" <;> simp only [hv, beq_self_eq_true, if_true, ite_true, beq_iff_eq, if_false, ite_false] <;>
+    refine ⟨_, rfl, ?_⟩
+  all_goals (constructor <;>
+    first
+    | exact h.name
+    | exact h.datumCode
+    | exact h.ellps
+    | exact h.units
+    | exact h.nadgrids
+    | exact h.axis
+    | exact h.rf
+    | exact h.lat0
+    | exact h.lat1
+    | exact h.lat2
+    | exact h.latts
+    | exact h.long0
+    | exact h.x0
+    | exact h.y0
+    | exact h.k0
+    | exact h.a
+    | exact h.b
+    | exact h.zone
+    | exact h.fg
+    | exact h.tm
+    | exact h.dp
+    | exact h.ra
+    | exact h.south
+    | rfl)
+
+/-- **`+axis=`** = projString.js: three letters of `ewnsud` are stored, anything else is ignored -/
+theorem go_projString_axis_eq_js (s : Model.SR ℝ) (o : Js.Obj ℝ) (h : ParamSame s o) (v : String) :
+    ∃ s', Model.applyKV s "axis" v = .ok s' ∧ ParamSame s' (Js.applyParam o ("axis", some v)) := by
+  have hl : Model.legalAxis v = Js.legalAxis v := rfl
+  simp only [Model.applyKV, projString_num, projString_str, projString_flag, Model.applySpecial, Js.applyParam,
+    Option.getD_some, hl]
+  cases Js.legalAxis v <;> simp only [if_true, if_false, Bool.false_eq_true, ite_true, ite_false] <;> refine ⟨_, rfl, ?_⟩
+  all_goals (constructor <;>
+    first
+    | exact h.name
+    | exact h.datumCode
+    | exact h.ellps
+    | exact h.units
+    | exact h.nadgrids
+    | exact h.axis
+    | exact h.rf
+    | exact h.lat0
+    | exact h.lat1
+    | exact h.lat2
+    | exact h.latts
+    | exact h.long0
+    | exact h.x0
+    | exact h.y0
+    | exact h.k0
+    | exact h.a
+    | exact h.b
+    | exact h.zone
+    | exact h.fg
+    | exact h.tm
+    | exact h.dp
+    | exact h.ra
+    | exact h.south
+    | rfl)
+
+
+theorem mapM_parse_eq (l : List String) : ∀ ps : List ℝ, l.mapM (fun s => Model.parseFloat (α := ℝ) s) = .ok ps →
+    l.map (fun s => Js.jsNum (α := ℝ) (some s)) = ps := by
+  induction l with
+  | nil => intro ps hps; simp only [List.mapM_nil, pure, Except.pure, Except.ok.injEq] at hps; subst hps; rfl
+  | cons a t ih =>
+    intro ps hps
+    simp only [List.mapM_cons, bind, Except.bind] at hps
+    cases ha : parseNum (α := ℝ) a with
+    | none =>
+      have hpa : Model.parseFloat (α := ℝ) a = .error ("strconv.ParseFloat: parsing " ++ a) := by
+        simp only [Model.parseFloat, ha]
+      simp only [hpa, reduceCtorEq] at hps
+    | some x =>
+      have hpa : Model.parseFloat (α := ℝ) a = .ok x := by simp only [Model.parseFloat, ha]
+      cases ht : t.mapM (fun s => Model.parseFloat (α := ℝ) s) with
+      | error e => simp only [hpa, ht, reduceCtorEq] at hps
+      | ok qs =>
+        simp only [hpa, ht, pure, Except.pure, Except.ok.injEq] at hps
+        subst hps
+        simp only [List.map_cons, ih qs ht]
+        simp only [Js.jsNum, ha, Option.getD_some]
+
+theorem applyKV_towgs84 (s : Model.SR ℝ) (v : String) :
+    Model.applyKV s "towgs84" v =
+      ((v.splitOn ",").mapM (fun s => Model.parseFloat (α := ℝ) s) >>= fun ps => pure { s with datumParams := ps }) := by
+  rfl
+
+/-- **`+towgs84=`** (hand model of the pinned case text) = projString.js: whenever the port accepts the list
+(every term is a number) both sides hold the same numbers, as many as were written -/
+theorem go_projString_towgs84_eq_js (s s' : Model.SR ℝ) (o : Js.Obj ℝ) (h : ParamSame s o) (v : String)
+    (hs : Model.applyKV s "towgs84" v = .ok s') : ParamSame s' (Js.applyParam o ("towgs84", some v)) := by
+  rw [applyKV_towgs84] at hs
+  cases hm : (v.splitOn ",").mapM (fun s => Model.parseFloat (α := ℝ) s) with
+  | error e => simp only [hm, bind, Except.bind, reduceCtorEq] at hs
+  | ok ps =>
+    simp only [hm, bind, Except.bind, pure, Except.pure, Except.ok.injEq] at hs
+    subst hs
+    have hj := mapM_parse_eq _ ps hm
+    simp only [Js.applyParam, Option.getD_some, hj]
+    constructor <;>
+    first
+    | exact h.name
+    | exact h.datumCode
+    | exact h.ellps
+    | exact h.units
+    | exact h.nadgrids
+    | exact h.axis
+    | exact h.rf
+    | exact h.lat0
+    | exact h.lat1
+    | exact h.lat2
+    | exact h.latts
+    | exact h.long0
+    | exact h.x0
+    | exact h.y0
+    | exact h.k0
+    | exact h.a
+    | exact h.b
+    | exact h.zone
+    | exact h.fg
+    | exact h.tm
+    | exact h.dp
+    | exact h.ra
+    | exact h.south
+    | rfl
+
+/-- **`+pm=`** (hand model of the pinned case text) = projString.js: a name of the prime-meridian table gives the
+table's number (`C09_primeMeridians`), anything else is read as a number; both in degrees. `hz`: a named meridian
+of value 0 (`greenwich`: proj4js then falls through to `parseFloat` of the NAME) is not itself a number -/
+theorem go_projString_pm_eq_js (s : Model.SR ℝ) (o : Js.Obj ℝ) (h : ParamSame s o) (v : String)
+    (hz : ∀ d, lookupNum Gen.goPrimeMeridians v = some d → (d.toNum : ℝ) = 0 → parseNum (α := ℝ) v = none)
+    (hn : lookupNum Gen.goPrimeMeridians v = none → ∃ x : ℝ, parseNum v = some x) :
+    ∃ s', Model.applyKV s "pm" v = .ok s' ∧ ParamSame s' (Js.applyParam o ("pm", some v)) := by
+  simp only [Model.applyKV, projString_num, projString_str, projString_flag, Model.applySpecial, Js.applyParam,
+    Option.getD_some, ← C09_primeMeridians, d2r_eq]
+  cases hl : lookupNum Gen.goPrimeMeridians v with
+  | none =>
+    obtain ⟨x, hx⟩ := hn hl
+    simp only [Option.map_none, Model.parseFloat, hx, bind, Except.bind, pure, Except.pure, Js.jsNum, Option.getD_some]
+    refine ⟨_, rfl, ?_⟩
+    constructor <;>
+    first
+    | exact h.name
+    | exact h.datumCode
+    | exact h.ellps
+    | exact h.units
+    | exact h.nadgrids
+    | exact h.axis
+    | exact h.rf
+    | exact h.lat0
+    | exact h.lat1
+    | exact h.lat2
+    | exact h.latts
+    | exact h.long0
+    | exact h.x0
+    | exact h.y0
+    | exact h.k0
+    | exact h.a
+    | exact h.b
+    | exact h.zone
+    | exact h.fg
+    | exact h.tm
+    | exact h.dp
+    | exact h.ra
+    | exact h.south
+    | rfl
+  | some d =>
+    have hb : (if RNum.truthy (d.toNum : ℝ) = true then (d.toNum : ℝ) else Js.jsNum (some v)) = d.toNum := by
+      by_cases hd : (d.toNum : ℝ) = 0
+      · have := hz d hl hd
+        simp only [r_truthy, hd, decide_true, Bool.not_true, Bool.false_eq_true, if_false, ite_false, Js.jsNum, this,
+          Option.getD_none, r_nan]
+      · simp only [r_truthy, hd, decide_false, Bool.not_false, if_true, ite_true]
+    simp only [Option.map_some, hb]
+    refine ⟨_, rfl, ?_⟩
+    constructor <;>
+    first
+    | exact h.name
+    | exact h.datumCode
+    | exact h.ellps
+    | exact h.units
+    | exact h.nadgrids
+    | exact h.axis
+    | exact h.rf
+    | exact h.lat0
+    | exact h.lat1
+    | exact h.lat2
+    | exact h.latts
+    | exact h.long0
+    | exact h.x0
+    | exact h.y0
+    | exact h.k0
+    | exact h.a
+    | exact h.b
+    | exact h.zone
+    | exact h.fg
+    | exact h.tm
+    | exact h.dp
+    | exact h.ra
+    | exact h.south
+    | rfl
+
+
+/-- a key that is in none of the regenerated case tables and is not one of the five special cases is rejected by
+the port (`default: err = fmt.Errorf(...)`; proj4js stores such a parameter under its own name) -/
+theorem go_projString_unknown (k v : String) (s : Model.SR ℝ) (h1 : projString_num k = none) (h2 : projString_str k = none)
+    (h3 : projString_flag k = none) (h4 : k ≠ "towgs84") (h5 : k ≠ "units") (h6 : k ≠ "pm") (h7 : k ≠ "nadgrids")
+    (h8 : k ≠ "axis") : Model.applyKV s k v = .error ("proj: invalid field '" ++ k ++ "'") := by
+  simp only [Model.applyKV, h1, h2, h3, Model.applySpecial]
+  rfl
+
+/-- the empty `*SR` of `NewSR()` and the empty object `{}` -/
+theorem paramSame_new : ParamSame (Model.newSR : Model.SR ℝ) (Js.Obj.empty : Js.Obj ℝ) := by
+  constructor <;> first | rfl | (simp only [Js.Obj.empty, Model.newSR, Option.getD_none]; rnum)
+
+/-- non-vacuity of the numeric case: `+lat_0=` is a key of the regenerated table, in degrees -/
+example : projString_num "lat_0" = some ("Lat0", true) := rfl
+
 end GeomV.C09
